@@ -75,6 +75,22 @@ def rule_a(ctx):
         ctx.ob("mt|cancel-all-with-active-tasks-unset", ok,
                "every drained CancelToken is cancelled, inside LOCAL_WORKER.set and ACTIVE_TASKS.unset (futures dropped during shutdown must not "
                "touch the task list of an enclosing executor)", unsets + sdr + cancels)
+    # workers leave their loop once the abort signal is set: every task run is on the `!abort_signal.is_set()` side,
+    # and after every park the signal is re-checked before searching for work
+    for w in P.all_bodies():
+        if not any(True for _ in w.calls(r"PoolManager::try_set_worker_inactive$")):
+            continue
+        runs = list(w.calls(r"executor::task::runnable::Runnable::run$"))
+        for r in runs:
+            ok = any(c.kind == "call" and c.data[0] == "executor::Signal::is_set" and c.data[1] is False for c in w.conditions(r))
+            ctx.ob("worker|no-task-run-after-abort|%s" % K.owner_fn(P, w).name, ok, "a worker runs a task only after seeing the abort signal clear", [r])
+        parks = list(w.calls("^parking::Parker::park$"))
+        checks = list(w.calls("^executor::Signal::is_set$"))
+        for pk in parks:
+            ok = bool(runs) and not any(w.can_reach(pk, r, avoiding=checks) for r in runs)
+            ctx.ob("worker|abort-checked-after-park|%s" % K.owner_fn(P, w).name, ok, "after being unparked a worker checks the abort signal before it can run any task", [pk])
+        rets = [c for c in checks if any(True for _ in [0])]
+        ctx.ob("floor|worker-abort-checks", len(checks) >= 2, "the worker loop checks the abort signal at least twice (after parking, before each task)", checks)
     s = ctx.body(ST_DROP)
     if s:
         fam = P.family(s)
@@ -122,6 +138,8 @@ REVIEWED_LEAKS = {
     "std::alloc::alloc": {"executor::task::spawn": 1, "executor::task::spawn_and_forget": 1},
     "std::boxed::Box::into_raw": {"util::slot::slot": 1},
     "std::boxed::Box::leak": {},
+    "std::boxed::Box::from_raw": {"util::slot::SlotWriter::write": 1, "<util::slot::SlotWriter as std::ops::Drop>::drop": 1,
+                                  "<util::slot::SlotReader as std::ops::Drop>::drop": 1},
     "std::mem::ManuallyDrop::new": {
         "channel::queue::Queue::pop": 1,
         "executor::task::cancel_token::CancelToken::cancel": 1,
@@ -154,6 +172,21 @@ def rule_c(ctx):
         for o, n in table.items():
             if o not in found:
                 ctx.ob("leak-inventory|%s|%s" % (last_seg(callee), o), True, "reviewed site no longer present (nothing to release)", [])
+    # an allocation handed out as a raw pointer keeps all its reviewed release sites (a removed release is a leak)
+    for callee, table in (("std::boxed::Box::from_raw", REVIEWED_LEAKS["std::boxed::Box::from_raw"]),):
+        for o, n in table.items():
+            cnt = 0
+            for b in P.all_bodies():
+                if K.owner_fn(P, b).name == o:
+                    cnt += len(list(b.calls(lambda c, callee=callee: c == callee)))
+            ctx.ob("release-site-present|%s|%s" % (last_seg(callee), o), cnt == n,
+                   "the reviewed release site(s) of the reply-slot allocation are still present in %s (found %d, reviewed %d)" % (o, cnt, n), [])
+    # raw round trips of recycled boxes are paired within one function
+    for b in P.all_bodies():
+        a = len(list(b.calls(r"^recycle_box::RecycleBox::into_raw_parts$")))
+        z = len(list(b.calls(r"^recycle_box::RecycleBox::from_raw_parts$")))
+        if a or z:
+            ctx.ob("raw-parts-paired|%s" % b.name, a == z, "RecycleBox::into_raw_parts / from_raw_parts are paired in the same function", [b.loc()])
     # ManuallyDrop fields and their release in Drop
     md_fields = []
     for name, a in P.adts.items():
